@@ -10,6 +10,11 @@ delayed completion}; options body_size_limit / stream_large_bodies are toggled. 
   final   after the driver has closed the client and every server connection (what ConnectionHandler does),
           every non-CONNECT, non-upgrade flow that fired requestheaders has exactly one of response/error and
           flow.live is False
+
+Third leg (every worker with index 2 mod 4, engine B / vf/httphandler.py): the same HTTP stack inside the real
+ProxyConnectionHandler on virtual time, so that connection establishment, hook tasks, cancellation (client gone, idle
+timeout, CloseConnection while a connect or a hook is pending) and teardown are mitmproxy's own asyncio code; the same
+automaton runs on the hooks recorded once the handler has returned (real-handler leg).
 """
 import random
 
@@ -22,7 +27,7 @@ LEVEL = "fault_enumeration"
 ENGINE = "sansio"
 BUDGET = {"quick": (400, 20), "thorough": (20000, 240)}
 WORKERS = {"quick": 4, "thorough": 16}
-REQUIRED = ["h2.cases", "h2.fault.connect_refused", "order", "final", "fault.client_cut", "fault.server_cut", "fault.connect_refused", "policy.kill", "policy.set_response", "policy.stream"]
+REQUIRED = ["handler.cases", "handler.connect_pending_long", "h2.cases", "h2.fault.connect_refused", "order", "final", "fault.client_cut", "fault.server_cut", "fault.connect_refused", "policy.kill", "policy.set_response", "policy.stream"]
 TECHNIQUE = "runtime monitoring: fault-position sweep on the sans-io driver + per-flow hook-order automaton"
 RULE = (
     "case = (spec of 1-3 HTTP/1 requests, fault kind and position, per-hook addon action vector, option toggles); quick samples offsets, "
@@ -223,12 +228,65 @@ def run_h2(ctx, opts):
         opts.update(http2_ping_keepalive=old_ka)
 
 
+def run_handler(ctx):
+    """Real-handler leg (engine B, vf/httphandler.py): the HTTP stack inside the real ProxyConnectionHandler on virtual time.
+    Connect attempts that are refused / hang / are slow, origins that answer, stall, cut or reset, clients that close, reset or
+    go idle (tcp_timeout) at any moment, slow async lifecycle and HTTP hooks, kill/stream actions: cancellation and teardown are
+    mitmproxy's own asyncio code. The C03 automaton runs on the recorded hooks once the handler has returned."""
+    from vf import httphandler
+
+    class _D:
+        pass
+
+    for i in ctx.cases():
+        r = ctx.rng
+        plan = httphandler.gen_plan(r)
+        try:
+            res = httphandler.run_plan(plan)
+        except Exception as e:
+            ctx.violation("harness-or-handler-crash", {"leg": "handler", "plan": plan, "exc": repr(e)})
+            ctx.case(("handler", "crash"), False)
+            continue
+        if res.deadlock:
+            # the client stays silent and no timeout is configured that would end the run: nothing to judge
+            ctx.count("handler.never_ended")
+            ctx.case(("handler", "never-ended"), False)
+            continue
+        ctx.count("handler.cases")
+        d = _D()
+        d.hooks = res.hooks
+        cancelled = sorted({n for n, _, _ in res.cancelled_hooks})
+        for n in cancelled:
+            ctx.count("handler.hook_cancelled." + n)
+        witness = {"leg": "handler", "plan": {k: v for k, v in plan.items()}, "all_hooks": res.hook_names(), "cancelled_hooks": cancelled}
+        # known: the task of an upstream attempt is cancelled while an (async) lifecycle hook of open_connection is being handled;
+        # the layer then never receives OpenConnectionCompleted and the waiting flow never gets an outcome (same root as C09's findings)
+        life = [n for n in cancelled if n in ("server_connect", "server_connected", "server_connect_error")]
+
+        class _Shim2:
+            def __getattr__(s, name):
+                return getattr(ctx, name)
+
+            def violation(s, kind, w, mech=None):
+                if kind.startswith("final:") and life and ("0-outcomes" in kind or "still-live" in kind):
+                    mech = "no-outcome-when-upstream-attempt-cancelled-inside-lifecycle-hook"
+                ctx.violation(kind, w, mech)
+
+        seqs = check_lifecycle(_Shim2(), d, witness)
+        if "hang" in plan["connect"][:1] or "slow" in plan["connect"][:1]:
+            ctx.count("handler.connect_pending_long")
+        sig = ("handler", plan["client_close_kind"], plan["connect"][0], plan["origin"][0], tuple(sorted(plan["hook_action"].items())), tuple(cancelled), tuple(sorted(set(seqs))))
+        ctx.case(sig, True, {"leg": "handler", "plan": {k: plan[k] for k in ("connect", "origin", "client_close_at", "client_close_kind", "tcp_timeout")}, "flows": seqs})
+
+
 def run(ctx):
     tctx, _ = sansio.addon_context()
     opts = tctx.options
     defaults = {k: getattr(opts, k) for k in ("body_size_limit", "stream_large_bodies", "store_streamed_bodies")}
     if ctx.worker % 4 == 3 and ctx.only_case is None or (ctx.only_case is not None and ctx.worker % 4 == 3):
         return run_h2(ctx, opts)
+    if ctx.worker % 4 == 2:
+        return run_handler(ctx)
     try:
         for i in ctx.cases():
             r = ctx.rng
